@@ -9,3 +9,17 @@ for p in $(/venv/bin/python -c "import json;print(' '.join(c['property_id'] for 
   rm -f /var/tmp/runall_$p.txt
 done
 [ $fail -eq 0 ] && echo "all quick checks exit 0"
+# the alpha-normalisation reference (jv/localnames.json) should describe the current tree: regenerate after repository fixes
+/venv/bin/python - <<'PY'
+import ast, json, os, sys
+sys.path.insert(0, "/verif")
+from jv.alpha import reference_of, REF
+cur = {}
+for fn in sorted(os.listdir("/repo/jsonargparse")):
+    if fn.endswith(".py"):
+        cur.update(reference_of(ast.parse(open("/repo/jsonargparse/" + fn).read()), fn[:-3]))
+old = json.load(open(REF))
+stale = [k for k in cur if old.get(k) != cur[k]] + [k for k in old if k not in cur]
+if stale:
+    print(f"NOTE: jv/localnames.json is stale for {len(stale)} function(s) (e.g. {stale[:3]}): run tools/gen_localnames.py")
+PY
